@@ -66,7 +66,7 @@ func genC0x(r *hysim.Rand, tier string, c02 bool) *hysim.Script {
 	sc.Cfg["udp_disabled"] = int64(r.Pick(0, 0, 0, 1))
 	sc.Cfg["masq"] = int64(r.Pick(0, 1, 1))
 	sc.Cfg["logger"] = int64(r.Pick(0, 1))
-	sc.Cfg["auth_delay_ms"] = r.Pick64(0, 0, 3, 150, 2500)
+	sc.Cfg["auth_delay_ms"] = r.Pick64(0, 0, 3, 150, 2500, 2500, 7000) // (a backend that takes seconds)
 	netCfg(r, sc, 100)
 	wYieldCfg(r, sc, 3000000)
 	for i := 0; i < nops*nconn; i++ {
